@@ -81,6 +81,12 @@ pub struct WireView {
 
 impl WireView {
     pub fn build(events: &[Event]) -> WireView {
+        Self::build_opts(events, true)
+    }
+
+    /// `scripted_traffic_counts`: when false, datagrams sent by harness code (an attacker that
+    /// spoofs real addresses and identifiers) neither create connections nor are attributed to one.
+    pub fn build_opts(events: &[Event], scripted_traffic_counts: bool) -> WireView {
         let mut pkts: Vec<WirePkt> = Vec::new();
         let mut by_id: BTreeMap<u64, usize> = BTreeMap::new();
         let mut conns: Vec<ConnView> = Vec::new();
@@ -112,7 +118,7 @@ impl WireView {
                         conn: None,
                         from_initiator: false,
                     };
-                    if let Some(p) = pkt {
+                    if let Some(p) = pkt.as_ref().filter(|_| scripted_traffic_counts || !*scripted) {
                         if p.ty == wire::ST_SYN {
                             // a retransmitted / duplicated SYN with the same seq is the same conn
                             let existing = conns.iter().rposition(|c| {
